@@ -131,6 +131,20 @@ Definition run_hetero (dup_check : bool) (c : seg_case) : hres :=
   end.
 
 (* ---------------------------------------------------------------------------------------------- *)
+(** binary association records -> cross-association parameters of the site pairs (SAFT-VR Mie) *)
+Record assoc_case := mkAC { ac_hasA : list bool; ac_hasB : list bool; ac_eps : list (list (option Z)); ac_rc : list (list (option Z)) }.
+
+Definition mat_fun (m : list (list (option Z))) (i j : nat) : option Z := nth j (nth i m []) None.
+
+Definition run_assoc (c : assoc_case) : list (nat * nat * option Z * option Z) :=
+  let n := List.length (ac_hasA c) in
+  let hA := fun i => nth i (ac_hasA c) false in
+  let hB := fun i => nth i (ac_hasB c) false in
+  let oe := overrides_of hA hB (matrix_recs n (mat_fun (ac_eps c))) in
+  let orc := overrides_of hA hB (matrix_recs n (mat_fun (ac_rc c))) in
+  flat_map (fun i => flat_map (fun j => if hA i && hB j then [(i, j, ov_get oe i j, ov_get orc i j)] else []) (seq 0 n)) (seq 0 n).
+
+(* ---------------------------------------------------------------------------------------------- *)
 (** serde shape *)
 Definition run_serde_pcsaft (r : spcsaft) : jobj * option (jobj * bool) :=
   (print_pcsaft r,
